@@ -5,6 +5,7 @@
 import LLFreeV.Model.Codec
 import LLFreeV.Model.Policies
 import LLFreeV.Gen.Leaf
+import LLFreeV.Model.Wrapper
 namespace LLFree
 
 /-! ### `eval/src/classes.rs`: class configurations and request generation -/
@@ -181,6 +182,19 @@ def unitStep (tf : Nat) (cmd : String) (args : List String) : Option String :=
       -- the geometry only enters through TREE_FRAMES of the policy; passed by the caller via `tf`
       some (sbestRun tf cap start offset len cls order variant tw)
     | _, _, _, _, _, _, _, _ => some "bad-op"
+  | "newmeta", ho :: th :: frames :: classes :: "|" :: nums =>
+    match ho.toNat?, th.toNat?, frames.toNat?, nums.mapM String.toNat? with
+    | some ho, some th, some frames, some [la, ll, ta, tl, wa, wl] =>
+      let cls : Option (List (Nat × Nat)) := if classes == "-" then some [] else
+        (classes.splitOn ",").mapM fun p => match p.splitOn ":" with
+          | [a, b] => do let a ← a.toNat?; let b ← b.toNat?; pure (a, b)
+          | _ => none
+      match cls with
+      | some cls =>
+        let c : Cfg := { geom := ⟨ho, th⟩, frames := frames, classes := cls, dflt := 0, policy := fun _ _ _ => .invalid }
+        some (if metaValid c ⟨la, ll, ta, tl, wa, wl⟩ then "ok" else "err init")
+      | none => some "bad-op"
+    | _, _, _, _ => some "bad-op"
   | "req", cores :: core :: pid :: order :: gfp :: "|" :: cls =>
     match cores.toNat?, core.toNat?, pid.toNat?, order.toNat?, gfp.toNat?, parseClassCfgs cls with
     | some cores, some core, some pid, some order, some gfp, some classes =>
